@@ -159,3 +159,16 @@ Proof.
       destruct (omsg_eqb r (Some (ReportState a s))); cbn [run_script fst]; rewrite app_nil_r;
         apply Hone; reflexivity.
 Qed.
+
+(* catch_all: also a panic of the nested call is dropped; on the bus the call still says what it would say alone. *)
+Lemma run_script_catch_all {A} (p : prog A) script :
+  fst (run_script (catch_all p) script) = fst (run_script p script)
+  /\ snd (run_script (catch_all p) script) <> ProtoErr /\ snd (run_script (catch_all p) script) <> Crashed.
+Proof.
+  revert script. induction p as [a| | |m k IH]; intros script;
+    try (cbn [catch_all run_script fst snd]; repeat split; discriminate).
+  cbn [catch_all run_script]. destruct script as [|[|r] script']; try (cbn [fst snd]; repeat split; discriminate).
+  specialize (IH r script').
+  destruct (run_script (catch_all (k r)) script') as [tr o]. destruct (run_script (k r) script') as [tr' o'].
+  cbn [fst snd] in *. destruct IH as (H1 & H2 & H3). repeat split; [f_equal; exact H1|exact H2|exact H3].
+Qed.
